@@ -510,6 +510,7 @@ pub struct C19Ctx<'a> {
     pub c2s_shutdown: bool,
     pub reset_max: [usize; 2],
     pub orphans: &'a [(Side, Vec<(u32, usize)>)],
+    pub orphan_flags: &'a [(Side, Vec<(u32, u8)>)],
 }
 
 pub fn check_c19(cx: &C19Ctx, out: &mut Outcome) {
@@ -576,6 +577,17 @@ pub fn check_c19(cx: &C19Ctx, out: &mut Outcome) {
                     // (the application used the reservation API on the stream: it held or awaited assigned capacity — the
                     // stream can then sit in the prioritizer's capacity queue when it is reset)
                     let waited_for_capacity = cx.events.iter().any(|e| e.side == *side && Some(e.key) == key && matches!(&e.api, Api::CapacityErr { .. } | Api::CapacityEnd | Api::Capacity { .. }));
+                    // (the queue flags read through the probe: a record still parked in the capacity queue is the recorded
+                    // finding whatever the trace shows; once that queue has dropped it no flag is left, so the history decides)
+                    let flags = cx.orphan_flags.iter().filter(|o| o.0 == *side).flat_map(|o| o.1.iter()).find(|x| x.0 == *sid).map(|x| x.1);
+                    if flags.map(|f| f & 2 != 0).unwrap_or(false) {
+                        return "reset-while-waiting-for-send-capacity";
+                    }
+                    // a message head the application submitted on the stream that never reached the wire: the stream was still
+                    // queued (for a concurrency slot or for capacity) when it was reset
+                    let heads_submitted = cx.events.iter().filter(|e| e.side == *side && Some(e.key) == key && matches!(&e.api, Api::SentHead { kind, stream, .. } if stream == sid && *kind != "push-request")).count();
+                    let heads_on_wire = cx.tap.frames.iter().filter(|f| f.from == *side && f.raw.stream == *sid && matches!(&f.frame, Ok(Frame::Headers { .. }))).count();
+                    let waited_for_capacity = waited_for_capacity || heads_submitted > heads_on_wire;
                     if reset && (submitted > on_wire || waited_for_capacity) {
                         "reset-while-waiting-for-send-capacity"
                     } else if clean {
@@ -599,6 +611,11 @@ pub fn check_c19(cx: &C19Ctx, out: &mut Outcome) {
                 "C19/finished-streams-retained",
                 format!("{}: {} stream records retained at quiescence although every stream finished and every handle was dropped (only {} are remembered local resets)", side.name(), st.store_slab_len, st.num_local_reset_streams),
             );
+        }
+        // every reset the endpoint still counts as remembered is a record it still holds (a counter that is not
+        // decremented when the record expires fills the quota with nothing)
+        if st.num_local_reset_streams > st.store_slab_len {
+            out.fail("C19", "idle/reset-memory", "C19/reset-memory-counts-streams-it-no-longer-holds", format!("{}: {} reset streams counted as remembered but only {} stream records exist", side.name(), st.num_local_reset_streams, st.store_slab_len));
         }
         if st.num_local_reset_streams > cx.reset_max[i] {
             out.fail("C19", "idle/reset-memory", "C19/reset-memory-over-quota", format!("{}: {} remembered reset streams, quota {}", side.name(), st.num_local_reset_streams, cx.reset_max[i]));
